@@ -16,6 +16,7 @@ The theorems are about the latches/flags of the machines; they say nothing about
 pickle or clone internals (pickle is the identity of the modelled state by definition).
 -/
 import FairModel.Lemmas.Lifecycle
+import FairModel.Model.LifecycleSrc
 
 namespace C19
 open Lifecycle Lifecycle.Machine
@@ -388,6 +389,158 @@ example : (Adv .repaired true).view advCls [.fit D1, .fit D2] =
 example : (Adv .repaired false).view advCls [.fit D1, .fit D2, .predict 0, .pickle, .clone, .pickle] =
     [(.retSelf, .fresh D1), (.retSelf, .fresh D2), (.ok, .fresh D2), (.raised .pickling, .fresh D2),
      (.ok, .unfitted), (.ok, .unfitted)] := by decide
+
+/-! ## the same clauses for the rule flags DERIVED FROM THE SOURCE (`Generated/LifecycleSrc.lean`, rewritten from
+the Python `ast` on every run by harness/lifters/lifecycle.py; machines in `Model/LifecycleSrc.lean`).
+The quantifier of the `decide` proofs below is the finite, generated list of classes / attribute names; the histories
+are still universally quantified (the flags are rewritten into the hand-written machines proved above).
+Modelled assumption (trusted): rebinding `self.<name>` inside the class's own methods is the only way the value
+`get_params` reports for `<name>` changes, and the callees in `fitSelfEscapes` / `predictSelfEscapes` do not do it. -/
+
+section Src
+open LifecycleSrc Generated.LifecycleSrc
+
+/-- no estimator except ExponentiatedGradient rebinds or stores into a constructor parameter anywhere in the
+    closure of `fit` / `partial_fit` -/
+theorem src_params_unchanged :
+    ∀ c ∈ [EstCls.TO, .GS, .CR, .ADV, .ADVC, .ADVR], paramsAssignedInFit c = [] ∧ paramsMutatedInFit c = [] := by
+  decide +kernel
+
+/-- F5c (KNOWN finding, kept visible): `ExponentiatedGradient.fit` rebinds exactly the parameter `nu`. -/
+theorem src_eg_params_assigned : paramsAssignedInFit .EG = ["nu"] ∧ paramsMutatedInFit .EG = [] := by
+  decide +kernel
+
+/-- every path of `fit` / `partial_fit` of every estimator ends in `return self` -/
+theorem src_fit_returns_self : ∀ c ∈ estimators, fitReturns c = ["self"] := by decide +kernel
+
+/-- no prediction entry point (predict, predict_proba, decision_function, _pmf_predict, transform, _raw_predict)
+    rebinds or stores into any attribute of the estimator, and the only outside code handed the estimator is
+    sklearn's `check_is_fitted` / `validate_data` -/
+theorem src_predict_pure :
+    ∀ c ∈ estimators, predictAssigned c = [] ∧ subset (predictSelfEscapes c) trustedPredictCallees = true := by
+  decide +kernel
+
+/-- every estimator has at least one prediction entry point that was analysed (non-vacuity of `src_predict_pure`) -/
+theorem src_predict_methods_present : ∀ c ∈ estimators, predictMethods c ≠ [] := by decide +kernel
+
+theorem src_fit_escapes_trusted : ∀ c ∈ estimators, subset (fitSelfEscapes c) trustedFitCallees = true := by
+  decide +kernel
+
+/-- every object that ThresholdOptimizer, GridSearch and ExponentiatedGradient (through `_Lagrangian`) call `.fit` on
+    is a clone / deep copy of the wrapped estimator or a freshly constructed object on every path -/
+theorem src_estimator_cloned :
+    toClones = true ∧ clonesBeforeFit .GS = true ∧ clonesBeforeFit .EG = true ∧ clonesBeforeFit .LAG = true ∧
+    (fitReceivers .GS ≠ [] ∧ fitReceivers .LAG ≠ []) := by decide +kernel
+
+/-- `fit` of ThresholdOptimizer, ExponentiatedGradient and GridSearch reads no fitted attribute before it has
+    definitely reassigned it in the same call (flow-sensitive definite-assignment analysis of the lifter).
+    CorrelationRemover: the one static path is `_create_lookup` returning early for 1-d input without setting
+    `lookup_`; that path is dead (`validate_data` raises for 1-d input right after — replayed by the harness,
+    relation `C19.cr_1d_path_dead`). -/
+theorem src_fit_history_reads :
+    fitHistoryReads .TO = [] ∧ fitHistoryReads .EG = [] ∧ fitHistoryReads .GS = [] ∧
+    fitHistoryReads .CR = ["lookup_"] := by decide +kernel
+
+/-- attributes `fit` reads that only `__init__` sets and `get_params` does not report: GridSearch's
+    `objective_weight` (= 1 − constraint_weight at construction; `set_params(constraint_weight=…)` does not update it) -/
+theorem src_init_derived_reads :
+    initDerivedReads .TO = [] ∧ initDerivedReads .EG = [] ∧ initDerivedReads .CR = [] ∧
+    initDerivedReads .GS = ["objective_weight"] := by decide +kernel
+
+/-! ### the machines under the derived flags -/
+
+theorem src_gs_rules : gsRules = gsReentrant := by decide +kernel
+
+/-- F5c stays: the moment latch is gone (re-entrant `load_data`), `nu` is still rebound -/
+theorem src_eg_rules : egRules = ⟨.reentrant, .current⟩ := by decide +kernel
+
+theorem src_cr_rule : crRule = .repaired := by decide +kernel
+
+theorem src_to_clones : toClones = true := by decide +kernel
+
+theorem src_gs_refines_spec (ops : List Op) : GSsrc.view gsCls ops = Spec.view specCls ops := by
+  unfold GSsrc; rw [src_gs_rules]; exact gs_reentrant_refines_spec ops
+
+theorem src_gs_history_free (ops : List Op) (d : Data) : GSsrc.run (ops ++ [.fit d]) = GSsrc.run [.fit d] := by
+  unfold GSsrc; exact gs_reentrant_history_free _ (by rw [src_gs_rules]; rfl) ops d
+
+theorem src_gs_fit_returns_self (s : GSState) (d : Data) : (GSsrc.step s (.fit d)).2 = .retSelf := by
+  unfold GSsrc; rw [src_gs_rules]; simp [GS, gsStep, gsReentrant, loadConstraints]
+
+/-- ExponentiatedGradient with `nu` given by the user: today's source refines the specification … -/
+theorem src_eg_refines_spec_nu_given (ops : List Op) :
+    (EGsrc true).view (egCls true) ops = Spec.view specCls ops := by
+  unfold EGsrc; rw [src_eg_rules]
+  apply view_eq_of_sim (EG ⟨.reentrant, .current⟩ true) Spec
+    (fun s t => s.nuParam = some .given ∧ s.started = t.isSome ∧
+                s.fitted = t.map (fun d => (d, Nu.given))) (egCls true) specCls ⟨rfl, rfl, rfl⟩
+  · rintro ⟨m, n, st, f⟩ t o ⟨h1, h2, h3⟩
+    simp only at h1 h2 h3; subst h1 h2 h3
+    cases o <;> cases t <;> simp [EG, egStep, Spec, loadConstraints]
+  · rintro ⟨m, n, st, f⟩ t ⟨h1, h2, h3⟩
+    simp only at h1 h2 h3; subst h1 h2 h3
+    cases t <;> simp [egCls, specCls, egFreshNu]
+
+/-- … and never changes `nu` -/
+theorem src_eg_nu_unchanged_nu_given (ops : List Op) : ((EGsrc true).run ops).nuParam = some .given := by
+  unfold EGsrc; rw [src_eg_rules]
+  have h : ∀ (ops : List Op) (s : EGState), s.nuParam = some .given →
+      ((EG ⟨.reentrant, .current⟩ true).runFrom s ops).nuParam = some .given := by
+    intro ops
+    induction ops with
+    | nil => intro s hs; exact hs
+    | cons o os ih =>
+      intro s hs
+      apply ih
+      cases o <;> simp [EG, egStep, loadConstraints, hs]
+      · split <;> simp [hs]
+  exact h ops _ rfl
+
+/-- F5c under today's source, `nu=None`: the first fit's automatic `nu` is kept by every later fit (known finding) -/
+theorem src_eg_nu_none_is_f5c :
+    (EGsrc false).view (egCls false) [.fit D1, .fit D2] = [(.retSelf, .fresh D1), (.retSelf, .staleNu D2 D1)] ∧
+    ((EGsrc false).run [.fit D1]).nuParam = some (.auto D1) := by
+  decide +kernel
+
+theorem src_cr_refines_spec (ops : List Op) : CRsrc.view crCls ops = Spec.view specCls ops := by
+  unfold CRsrc; rw [src_cr_rule]; exact cr_refines_spec ops
+
+theorem src_cr_history_free (ops : List Op) (d : Data) : CRsrc.run (ops ++ [.fit d]) = CRsrc.run [.fit d] := by
+  unfold CRsrc; rw [src_cr_rule]; exact cr_history_free ops d
+
+theorem src_to_refines_spec (ops : List Op) : TOsrc.view toCls ops = Spec.view specCls ops := by
+  unfold TOsrc; rw [src_to_clones]; exact to_refines_spec ops
+
+theorem src_to_history_free (ops : List Op) (d : Data) : TOsrc.run (ops ++ [.fit d]) = TOsrc.run [.fit d] := by
+  unfold TOsrc; rw [src_to_clones]; exact to_history_free ops d
+
+/-- the adversarial step function written over the three lifted boolean rules (`reinitialize = …` in fit, the guard
+    of `self.__setup` in `_validate_input`, the keep condition of `BackendEngine.__init__`) IS the repaired rule -/
+theorem src_adv_step_eq (w : Bool) (s : AdvState) (o : Op) : advStepSrc w s o = advStep .repaired w s o := by
+  rcases s with ⟨c, u, e⟩
+  cases o <;> try rfl
+  cases w <;> cases c <;> cases u <;> cases e <;>
+    simp [advStepSrc, advStep, advSetupCond, advReinit, advKeepEngine, newEngineSrc, newEngine, fitReturns]
+
+theorem src_adv_machine_eq (w : Bool) : ADVsrc w = Adv .repaired w := by
+  unfold ADVsrc Adv; congr 1; funext s o; exact src_adv_step_eq w s o
+
+theorem src_adv_history_free (ops : List Op) (d : Data) :
+    (ADVsrc false).run (ops ++ [.fit d]) = (ADVsrc false).run [.fit d] := by
+  rw [src_adv_machine_eq]; exact adv_history_free ops d
+
+theorem src_adv_refines_spec (ops : List Op) :
+    (ADVsrc false).maskPickle.view advCls ops = Spec.view specCls ops := by
+  rw [src_adv_machine_eq]; exact adv_refines_spec ops
+
+example : (EGsrc true).view (egCls true) [.fit D1, .predict 1, .clone, .fit D2, .pickle, .fit D1] =
+    [(.retSelf, .fresh D1), (.ok, .fresh D1), (.ok, .unfitted), (.retSelf, .fresh D2), (.ok, .fresh D2),
+     (.retSelf, .fresh D1)] := by decide +kernel
+
+example : (ADVsrc false).view advCls [.fit D1, .fit D2, .clone, .fit D2] =
+    [(.retSelf, .fresh D1), (.retSelf, .fresh D2), (.ok, .unfitted), (.retSelf, .fresh D2)] := by decide +kernel
+
+end Src
 
 /-! ## the specification itself carries the clauses of the property -/
 
